@@ -59,7 +59,12 @@ func (e *Env) EvalBool(x *Expr) (t *Term, err error) {
 				err = fmt.Errorf("%s (in %s)", ee.msg, x.String())
 				return
 			}
-			panic(r)
+			if e.ex != nil && e.ex.trace {
+				panic(r)
+			}
+			// an executor panic while evaluating a clause (e.g. a value of the post-state used under old()):
+			// the clause is unevaluable, which is reported, instead of crashing the whole run
+			err = fmt.Errorf("engine panic while evaluating the clause: %v (in %s)", r, x.String())
 		}
 	}()
 	tv := e.eval(x)
